@@ -123,6 +123,12 @@ func runC09Walk(k int, rng *Rng) CaseResult {
 		x.T = x.T.AddDate(0, 0, i)
 		objs = append(objs, x)
 	}
+	c("DB.Create(second collection)", func() {
+		osch := sod.DefaultSchema
+		if w.db.Create(&Other{}, osch) == nil {
+			w.db.InsertOrUpdate(&Other{A: 1, B: "b1"})
+		}
+	})
 	c("DB.InsertOrUpdate", func() { w.db.InsertOrUpdate(objs[0]) })
 	c("DB.InsertOrUpdateMany", func() { w.db.InsertOrUpdateMany(objs[1], objs[2]) })
 	c("DB.InsertOrUpdateBulk", func() { w.db.InsertOrUpdateBulk(sod.ToObjectChan([]*Rec{objs[3], objs[4], objs[5]}), 2) })
@@ -227,6 +233,20 @@ func runC09Walk(k int, rng *Rng) CaseResult {
 	c("DB.InsertOrUpdate", func() { objs[0].I++; w.db.InsertOrUpdate(objs[0]) })
 	c("DB.DeleteAll", func() { w.db.DeleteAll(rec()) })
 	c("DB.Close", func() { w.db.Close() })
+	// first calls on fresh handles of a directory holding two collections: whichever call loads a
+	// schema (a write, a read, Schema itself), the handle's mutexes are taken in one order
+	for round := 0; round < 2; round++ {
+		w.Open()
+		if round == 0 {
+			c("DB.InsertOrUpdate(first call, loads a schema)", func() { w.db.InsertOrUpdate(&Other{A: 9, B: "b9"}) })
+			c("DB.Schema(first call, loads a schema)", func() { w.db.Schema(rec()) })
+		} else {
+			c("DB.Schema(first call, loads a schema)", func() { w.db.Schema(&Other{}) })
+			c("DB.InsertOrUpdateMany(first call, loads a schema)", func() { objs[1].I++; w.db.InsertOrUpdateMany(objs[1]) })
+			c("DB.Count(first call, unknown collection)", func() { w.db.Count(&Tagged{}) })
+		}
+		c("DB.Close", func() { w.db.Close() })
+	}
 	w.Open()
 	c("DB.Create", func() { w.db.Create(rec(), schemaFor(cfg, rec())) })
 	c("DB.Drop", func() { w.db.Drop() })
